@@ -409,8 +409,11 @@ class Engine(object):
         elif full(rp):
             which = 'relay_pool (size %d)' % rp.size
         if which:
+            shape = self._jam_shape(sp if which.startswith('store') else rp)
+            if '?' in shape.split('+'):
+                return      # a slot holder that is not inside slimta.queue (not started yet / just finishing): not a nested-spawn deadlock
             self.jam_seen = which
-            self.jam_shape = self._jam_shape(sp if which.startswith('store') else rp)
+            self.jam_shape = shape
             # the recorded finding covers the slot holders observed on the unchanged tree; any other holder is a new deadlock
             extra = sorted(c for c in self.jam_shape.split('+') if c not in KNOWN_JAM_HOLDERS)
             suffix = (':' + '+'.join(extra)) if extra else ''
